@@ -181,9 +181,75 @@ def checkSubmission (r : Driver.Report) (n : Nat) (line : String) (st : St)
     r := r.bump "sub_shared_namespace"
   return r
 
+/-! ### end-to-end sessions: the real `BlobSubmitter::run` loop
+
+The harness scripts the loop (one submission is confirmed at a time and the loop settles before
+the next event), so the order of the loop's arms is determined: the biased `select!` tries the
+take arm before the recv arm. `settle` drives the model the same way. The size oracle of these
+sessions is the SUM of the blocks' stand-alone compressed sizes (the real loop does not expose
+its candidate sizes); the scripted blocks stay several percent away from the limit. -/
+
+structure E2E where
+  active : Bool := false
+  filter : List String := []
+  sub : Sub := {}
+  queue : List Block := []
+  emitted : Array Submission := #[]
+  sizes : List (String × Nat) := []          -- metadata digest ↦ stand-alone compressed size
+  -- ghost state from the implementation's reports
+  sent : List Block := []
+  iMetas : List (Nat × String) := []         -- metadata entries of the captured submissions, in order
+
+def soloSize (sizes : List (String × Nat)) (d : String) : Nat :=
+  match sizes.find? (·.1 = d) with
+  | some p => p.2
+  | none => 0
+
+def cfgE2E (e : E2E) : Cfg :=
+  { filter := e.filter, ns := nsOf, max := LIMIT,
+    csize := fun bs => some (bs.foldl (fun a b => a + match b.body with
+      | .metaList es => (es.map (fun m => soloSize e.sizes m.digest)).sum
+      | .rollupList _ => 0) 0) }
+
+/-- run the loop until no arm is enabled: take arm first (biased select), then recv -/
+def settle (e0 : E2E) : E2E := Id.run do
+  let mut e := e0
+  for _ in [0 : 4 * (e0.queue.length + 4)] do
+    let cfg := cfgE2E e
+    let (s1, out1) := e.sub.step cfg .take
+    match out1 with
+    | .submitted sub _ =>
+      e := { e with sub := s1, emitted := e.emitted.push sub }
+      continue
+    | _ => e := { e with sub := s1 }
+    match e.queue with
+    | b :: rest =>
+      let (s2, out2) := e.sub.step cfg (.recv b)
+      match out2 with
+      | .blocked => break
+      | .stopped => break
+      | _ => e := { e with sub := s2, queue := rest }
+    | [] => break
+  return e
+
+def e2eSubText (sub : Submission) : String :=
+  s!"nblobs={sub.payload.blobs.length} blobs={blobsText sub.payload.blobs}"
+
+/-- is `xs` obtained from `ys` by deleting elements (order kept)? returns the deleted ones -/
+def deletedFrom (xs ys : List (Nat × String)) : Option (List (Nat × String)) :=
+  match xs, ys with
+  | [], ys => some ys
+  | _ :: _, [] => none
+  | x :: xs', y :: ys' =>
+    if x = y then deletedFrom xs' ys'
+    else match deletedFrom (x :: xs') ys' with
+      | some d => some (y :: d)
+      | none => none
+
 def run (lines : Array String) : Driver.Report := Id.run do
   let mut r : Driver.Report := {}
   let mut st : St := {}
+  let mut e : E2E := {}
   let mut n := 0
   for line in lines do
     n := n + 1
@@ -320,6 +386,90 @@ def run (lines : Array String) : Driver.Report := Id.run do
         r := r.addMonitor "exactly_once" n line s!"{st.gNext.length} accepted block(s) never emitted after the drain"
       if st.gFailed then r := r.bump "session_hard_error"
       if ¬ isStrictlyIncreasing st.gAccHeights then r := r.bump "session_non_monotone_heights"
+    | "batch" :: "e2e-reset" :: args =>
+      let f := (field args "filter").getD "all"
+      let filter := if f = "all" then [] else f.splitOn ","
+      e := { active := true, filter := filter }
+      r := r.check n line impl "ok"
+      r := r.bump "e2e_sessions"
+    | "batch" :: "e2e-send" :: _ =>
+      if ¬ e.active then r := r.addDisagree n line "no-session" else
+      match (field iws "blk").bind parseBlock with
+      | none => r := r.addDisagree n line "cannot-parse-block"
+      | some b =>
+        let solo := (field iws "solo").getD "0"
+        e := { e with sizes := (b.md.digest, solo.toNat!) :: e.sizes, queue := e.queue ++ [b], sent := e.sent ++ [b] }
+        e := settle e
+        r := r.check n line impl s!"sent blk={blockText b} solo={solo}"
+        r := r.bump "e2e_send"
+    | "batch" :: "e2e-wait" :: args =>
+      if ¬ e.active then r := r.addDisagree n line "no-session" else
+      let q := ((field args "queued").getD "0").toNat!
+      let k := ((field args "broadcasts").getD "0").toNat!
+      let mtext := if e.queue.length = q ∧ e.emitted.size = k then "ok"
+        else s!"model: queued={e.queue.length} broadcasts={e.emitted.size}"
+      r := r.check n line impl mtext
+      r := r.bump "e2e_wait"
+    | ["batch", "e2e-confirm"] =>
+      if ¬ e.active then r := r.addDisagree n line "no-session" else
+      let (s', _) := e.sub.step (cfgE2E e) .done
+      e := settle { e with sub := s' }
+      r := r.check n line impl "ok"
+      r := r.bump "e2e_confirm"
+    | ["batch", "e2e-finish"] =>
+      if ¬ e.active then r := r.addDisagree n line "no-session" else
+      r := r.check n line impl s!"subs={e.emitted.size} exit={if e.sub.failed then "err" else "ok"}"
+      if e.sub.pending.isSome ∨ ¬ e.sub.next.input.metadata.isEmpty then r := r.bump "e2e_finish_with_rest"
+    | ["batch", "e2e-sub", i] =>
+      if ¬ e.active then r := r.addDisagree n line "no-session" else
+      let mtext := match e.emitted[i.toNat!]? with
+        | some sub => e2eSubText sub
+        | none => "none"
+      r := r.check n line icmp mtext
+      if ires ≠ "none" then
+        r := r.bump "e2e_submissions"
+        -- spec of one captured BlobTx, on the implementation's report
+        let blobs := ((field iws "blobs").getD "").splitOn ";" |>.map parseBlob
+        let metas := (blobs.filter (·.kind = "M")).flatMap (·.metas)
+        let blks := metas.filterMap (fun m => e.sent.find? (fun b => b.md.digest = m.2))
+        if blks.length ≠ metas.length ∨ metas.isEmpty then
+          r := r.addMonitor "exactly_once" n line "a submitted metadata entry belongs to no block that was sent (or no metadata at all)"
+        let nss := (blobs.filter (·.kind = "R")).map (·.ns)
+        let allNs := (blks.flatMap (fun b => (b.rollups.filter (fun x => shouldInclude e.filter x.rollup)).map (fun x => nsOf x.rollup))).eraseDups
+        for ns in (nss ++ allNs).eraseDups do
+          let got := (blobs.filter (fun b => b.kind = "R" ∧ b.ns = ns)).flatMap (·.datas)
+          let exp := blks.flatMap (fun b => b.rollups.filter (fun x => shouldInclude e.filter x.rollup && decide (nsOf x.rollup = ns)))
+          if got ≠ exp then
+            r := r.addMonitor "filter_only_drops_data" n line s!"namespace {ns}: {got.length} entries submitted, {exp.length} expected from the filter"
+        let real := ((field ews "real").getD "0").toNat!
+        if real > LIMIT then
+          r := r.addMonitor "size_bound" n line s!"submitted blobs have {real} > {LIMIT} compressed bytes"
+        let dec := (field ews "dec").getD "-"
+        let expDec := blks.map (fun b =>
+          let k := (b.rollups.filter (fun x => shouldInclude e.filter x.rollup)).length
+          s!"{b.md.height}:1:{k}/{k}")
+        if (if dec = "-" then [] else dec.splitOn ",") ≠ expDec ∨ (field ews "malformed") ≠ some "0" ∨ (field ews "orph") ≠ some "0" then
+          r := r.addMonitor "decode_roundtrip" n line s!"decoded {dec}; expected {",".intercalate expDec}"
+        if metas.length ≥ 2 then r := r.bump "e2e_sub_multi_block"
+        e := { e with iMetas := e.iMetas ++ metas }
+    | ["batch", "e2e-end"] =>
+      if ¬ e.active then r := r.addDisagree n line "no-session" else
+      r := r.check n line impl "ok"
+      -- exactly once, in order, over the whole session: what was submitted is the sent stream
+      -- minus blocks whose height had already been submitted when they arrived
+      let sentM := e.sent.map (fun b => (b.md.height, b.md.digest))
+      match deletedFrom e.iMetas sentM with
+      | none =>
+        r := r.addMonitor "exactly_once" n line s!"submitted {e.iMetas.map (·.1)} is not the sent stream {sentM.map (·.1)} with blocks removed (duplicate, reordered or foreign block)"
+      | some missing =>
+        for m in missing do
+          let earlier := (sentM.takeWhile (· ≠ m)).filter (fun x => e.iMetas.contains x)
+          if ¬ earlier.any (fun x => decide (x.1 ≥ m.1)) then
+            r := r.addMonitor "exactly_once" n line s!"block {m.1} was sent but never submitted, and no block of at least that height was submitted before it"
+        if ¬ missing.isEmpty then r := r.bump "e2e_skipped_already_submitted" missing.length
+      if ¬ isStrictlyIncreasing (e.iMetas.map (·.1)) then
+        r := r.addMonitor "height_order" n line s!"heights over all submissions: {e.iMetas.map (·.1)}"
+      e := {}
     | _ => r := r.addDisagree n line "bad-area"
   return r
 
